@@ -1575,7 +1575,9 @@ def iteration_clauses(ctx, RA, RB, emit_a):
             found_v = found_u = None
             for n in vnames:
                 e = scalar_of(post[n], n)
-                if e == Expr.atom(("ite", span_key, K, Expr.leaf(n))):
+                nested = Expr.atom(("ite", "spanning(%s)" % gname, Expr.atom(("ite", "spanning(%s)" % g2, Expr.leaf(n), K)), Expr.leaf(n)))
+                nested2 = Expr.atom(("ite", "spanning(%s)" % g2, Expr.leaf(n), Expr.atom(("ite", "spanning(%s)" % gname, K, Expr.leaf(n)))))
+                if e == Expr.atom(("ite", span_key, K, Expr.leaf(n))) or e == nested or e == nested2:
                     found_v = n
                 if e == Expr.atom(("ite", loops_key, K * Expr.leaf(n), Expr.leaf(n))):
                     found_u = n
@@ -2123,22 +2125,22 @@ def run_c04(ctx):
         env = Interp.Env()
         env.define("T", table)
         from ..kern.interp import PlaceRef
-        I.fold_early = False      # the memo exit is accounted for below: it must be the only early return
+        # early exits are folded into the value (whether written as nested if/else or as early returns); the writes through the table
+        # reference are read from the write log with their conditions below, so writing after an exit is fine here
+        I.allow_ref_writes_after_exit = True
         res = I.run_fn(jrec.path, [g, PlaceRef("T", [])], env)
         k = fresh("k")
-        pk = "pop(g,edge(g,%s))" % k
         rec = ssum(Expr.atom(("call", "Jrec", "pop(g,«%s»)" % k)) * Expr.atom(("call", "omega", "pop(g,«%s»)" % k)).inv(), k, "edges(g)")
         got = scalar_of(res, "J(g)")
-        want = Expr.atom(("ite", "empty(g)", Expr.const(1), rec))
+        memo = Expr.atom(("call", "Jmemo", "g"))
+        want = Expr.atom(("ite", "empty(g)", Expr.const(1), Expr.atom(("ite", "memo(g)", memo, rec))))
         ok, why = equal_modulo_order(got, want, {}, set())
-        if not ok:
-            # the binder's entity inside the keys is positional: compare after renaming through the canonical key of the inner sum
-            pass
-        ctx.ob("C04-a", "J(g) == ite(empty(g), 1, Σ_{e∈edges(g)} J(g∖e)/ω(g∖e))", ok, jrec.path, "j-recursion",
+        ctx.ob("C04-a", "J(g) == ite(empty(g), 1, ite(memo(g), memo value at g, Σ_{e∈edges(g)} J(g∖e)/ω(g∖e)))", ok, jrec.path, "j-recursion",
                detail="code ≠ reference (%s)\n        code:      %s\n        reference: %s" % (why, got.simplified().key()[:600], want.simplified().key()[:600]))
-        # memo: early return under the memo condition returns the memo value at key g
+        # memo: the only value-returning early exit besides the base case hands back the memo value at key g
         ers = [(c, v) for c, v in I.early_returns]
-        memo_ok = all(c == "memo(g)" and isinstance(v, Num) and v.expr == Expr.atom(("call", "Jmemo", "g")) for c, v in ers)
+        memo_ok = any(c == "memo(g)" and isinstance(v, Num) and v.expr == memo for c, v in ers) and \
+            all((c == "memo(g)" and isinstance(v, Num) and v.expr == memo) or (c == "empty(g)" and isinstance(v, Num) and v.expr == Expr.const(1)) for c, v in ers)
         ctx.ob("C04-a", "memoised value is read at key g and returned unchanged", memo_ok, jrec.path, "memo-read-key", detail="early returns %s" % [c for c, _v in ers])
         writes = [(path, val, conds) for (var, path, op, val, conds) in I.write_log if var == "T"]
         keys = set(p[0][1] for p, v, c in writes if p and p[0][0] == "idx")
